@@ -23,6 +23,8 @@ class Wb2CsrWorld(World):
                    "cyc_without_stb", "stb_without_cyc", "idle_signal_churn",
                    "second_instance_in_process", "release_in_ack_cycle", "domain_reset_mid_transfer")
     assumptions = (
+        "a reset of the clock domain returns the component to its initial state (the state the "
+        "property calls initial is the state after reset, as for every Amaranth register)",
         "Amaranth's Python RTL simulator executes the elaborated netlist faithfully",
         "the Wishbone initiator holds cyc, stb and all request signals stable from the start of a "
         "transfer until the cycle in which it sees ack (protocol-abiding, as the property assumes)",
